@@ -6,6 +6,8 @@ import (
 	"reflect"
 	"time"
 
+	"github.com/openacid/slim/encode"
+
 	"github.com/golang/protobuf/proto"
 	"github.com/openacid/slim/trie"
 	"verif/internal/h"
@@ -145,6 +147,54 @@ func evalC20Build(w *h.Worker, c *h.Case, qs []string, spread bool) *h.Viol {
 	return nil
 }
 
+// evalC20Arena: values carved out of one caller-owned arena, one of them shorter
+// than the encoder's fixed width and followed, inside its spare capacity, by the
+// next value.  Whatever the library makes of such values, the build must not
+// write into the arena (nothing is asserted about answers: a value shorter than
+// the declared width is outside the encoder's domain).
+func evalC20Arena(w *h.Worker, keys []string, opt h.Opt4) *h.Viol {
+	n := len(keys)
+	if n == 0 {
+		return nil
+	}
+	for short := -1; short < n; short++ {
+		arena := make([]byte, 0, 3*n+8)
+		vals := make([][]byte, n)
+		for i := 0; i < n; i++ {
+			l := 3
+			if i == short {
+				l = 2
+			}
+			start := len(arena)
+			for j := 0; j < l; j++ {
+				arena = append(arena, byte(0x41+i*3+j))
+			}
+			vals[i] = arena[start : start+l] // capacity reaches to the end of the arena
+		}
+		arena = append(arena, 0xee, 0xee, 0xee, 0xee)
+		full := arena[:cap(arena)]
+		before := append([]byte{}, full...)
+		type hdr struct{ l, c int }
+		var hs []hdr
+		for _, v := range vals {
+			hs = append(hs, hdr{len(v), cap(v)})
+		}
+		h.Safely(func() {
+			trie.NewSlimTrie(encode.Bytes{Size: 3}, append([]string{}, keys...), vals, opt.ToOpt())
+		})
+		w.Trans++
+		if !bytes.Equal(full, before) {
+			return &h.Viol{Sig: "build-modifies-values", Msg: fmt.Sprintf("NewSlimTrie wrote into the caller's value arena (value #%d is shorter than the encoder width): %x -> %x", short, before, full)}
+		}
+		for i, v := range vals {
+			if len(v) != hs[i].l || cap(v) != hs[i].c {
+				return &h.Viol{Sig: "build-modifies-values", Msg: fmt.Sprintf("NewSlimTrie changed the caller's value slice header #%d", i)}
+			}
+		}
+	}
+	return nil
+}
+
 // evalC20Load: the load and marshal clauses on one stream.
 func evalC20Load(w *h.Worker, stream []byte, complete bool, viaProto bool, qs []string) *h.Viol {
 	for pi := 0; pi < 3; pi++ {
@@ -211,7 +261,7 @@ func runC20(r *h.Run) {
 		return
 	}
 	layouts := legacyLayouts()
-	r.Rule = "build clause: every key set of K(U21,k) (k = 3 quick / 4 thorough) and the scaffolded sets x encoders {I32, String16, Bytes3 (Encode returns the caller's slice), VarEnc} x nil + all run patterns x all 81 option combinations over {nil,false,true} on sets <= 2 keys (8 normalised beyond) x {Opt passed by value, Opt slice spread}: keys, values and Opt (pointer identity and pointed-to Booleans) are compared with deep copies taken before, then the caller's value bytes, key slice and option cells are overwritten and every observation (answers to Q, scans, Stat, String, Marshal bytes) and the deep digest must be unchanged; load clause: the marshaled stream of each of those tries and every legacy layout's stream of every key set of K(U21,2) and the legacy families: the buffer equals its copy after Unmarshal / proto.Unmarshal, then it is overwritten with 0x00, 0xff and an address-dependent pattern: observations AND deep digest unchanged; marshal clause: the bytes returned by Marshal / proto.Marshal are overwritten with the same patterns: observations, digest and a second Marshal unchanged. A state is a distinct (stream, layout) resp. build input"
+	r.Rule = "build clause: every key set of K(U21,k) (k = 3 quick / 4 thorough) and the scaffolded sets x encoders {I32, String16, Bytes3 (Encode returns the caller's slice), VarEnc} x nil + all run patterns x all 81 option combinations over {nil,false,true} on sets <= 2 keys (8 normalised beyond) x {Opt passed by value, Opt slice spread}: keys, values and Opt (pointer identity and pointed-to Booleans) are compared with deep copies taken before, then the caller's value bytes, key slice and option cells are overwritten and every observation (additionally, with the pass-through Bytes encoder, values carved out of one caller-owned arena with spare capacity, each in turn shorter than the encoder width: the arena must be byte-identical after the build) (answers to Q, scans, Stat, String, Marshal bytes) and the deep digest must be unchanged; load clause: the marshaled stream of each of those tries and every legacy layout's stream of every key set of K(U21,2) and the legacy families: the buffer equals its copy after Unmarshal / proto.Unmarshal, then it is overwritten with 0x00, 0xff and an address-dependent pattern: observations AND deep digest unchanged; marshal clause: the bytes returned by Marshal / proto.Marshal are overwritten with the same patterns: observations, digest and a second Marshal unchanged. A state is a distinct (stream, layout) resp. build input"
 	r.Assumptions = []string{"retention is detected through a deep digest of everything reachable from the instance (reflect + unsafe, unexported fields included): memory reachable only through an uintptr or a closure would be missed", "loadability itself is decided by C05/C06"}
 	k := 3
 	if thorough {
@@ -310,6 +360,16 @@ func runC20(r *h.Run) {
 						}
 						w.State(h.Hash64(stream, []byte(c.Opt.String()), []byte(c.Enc)), len(b.Kept) >= 2)
 					}
+				}
+			}
+			if c.Enc == "Bytes3" && c.ValIDs != nil {
+				w.Evals++
+				if v := evalC20Arena(w, c.Keys, c.Opt); v != nil {
+					v.Msg += " | " + c.Brief()
+					cj := c20Case{CaseJSON: c.JSON(), Layout: "arena"}
+					v.Kind, v.Case, v.Unit = "c20", cj, w.Unit()
+					w.Report(*v)
+					return false
 				}
 			}
 			w.Sample(map[string]interface{}{"clause": "build + load + marshal", "case": c.Brief()})
@@ -412,6 +472,8 @@ func replayC20(prop string, raw []byte) *h.Viol {
 	qs := newSpaceCtx(0).q2
 	c := cj.CaseJSON.Case()
 	switch {
+	case cj.Layout == "arena":
+		return evalC20Arena(w, c.Keys, c.Opt)
 	case cj.Layout == "":
 		return evalC20Build(w, c, qs, cj.Spread)
 	case cj.Layout == "current":
